@@ -8,6 +8,7 @@ import (
 	"sort"
 	"strings"
 
+	"golang.org/x/tools/go/ast/astutil"
 	"golang.org/x/tools/go/ssa"
 
 	"verif/internal/core"
@@ -25,7 +26,7 @@ func init() {
 	register(&Rule{ID: "R-KERNELBOUNDS", Min: 12, Run: ruleKernelBounds,
 		Doc: "every kernel that receives a window (matrix argument per the pinned parser.Functions) guards its indexing of Points: the number of points its body and helpers need is established by a dominating early-return length test"})
 	register(&Rule{ID: "R-ACCRESET", Min: 6, Run: ruleAccReset,
-		Doc: "for every accumulator literal, every captured variable written by AddFunc is assigned in Reset: tables are reused for every batch, so nothing of an earlier step survives"})
+		Doc: "for every accumulator literal, every piece of state written by AddFunc (a captured variable, or a field of a captured or bound state object, compared by type and field name) is written by Reset: tables are reused for every batch, so nothing of an earlier step survives. AddFunc/Reset may be function literals, method values, or parameters of a constructor helper (then each call site of the helper is an instance)"})
 	register(&Rule{ID: "R-USEAFTERPUT", Min: 10, Run: ruleUseAfterPut,
 		Doc: "after PutStepVector(v) the Samples/SampleIDs of v are not read again in the same iteration (same block or blocks it dominates before the loop back edge)"})
 	register(&Rule{ID: "R-RESULTSHAPE", Min: 3, Run: ruleResultShape,
@@ -49,6 +50,8 @@ func init() {
 		Old: "\t\t\t\tval = scalarVectors[batchIndex].Samples[0]\n\t\t\t\to.nextOps[i].GetPool().PutStepVector(scalarVectors[batchIndex])\n", New: "\t\t\t\to.nextOps[i].GetPool().PutStepVector(scalarVectors[batchIndex])\n\t\t\t\tval = scalarVectors[batchIndex].Samples[0]\n", Expect: "functionOperator"})
 	mutant(Mutant{Rule: "R-RESULTSHAPE", Name: "matrix-not-sorted", File: "engine/engine.go",
 		Old: "\t\tsort.Sort(resultMatrix)\n", New: "\t\tif len(resultMatrix) > 1000 {\n\t\t\tsort.Sort(resultMatrix)\n\t\t}\n", Expect: "sorted"})
+	mutant(Mutant{Rule: "R-RESULTSHAPE", Name: "matrix-sorted-by-another-order", File: "engine/engine.go",
+		Old: "\t\tsort.Sort(resultMatrix)\n", New: "\t\tsort.Slice(resultMatrix, func(i, j int) bool { return resultMatrix[i].Metric.String() < resultMatrix[j].Metric.String() })\n", Expect: "sorted"})
 	mutant(Mutant{Rule: "R-RESULTSHAPE", Name: "empty-series-kept", File: "engine/engine.go",
 		Old: "\t\t\tif len(s.Points) == 0 {\n\t\t\t\tcontinue\n\t\t\t}\n\t\t\tresultMatrix = append(resultMatrix, s)", New: "\t\t\tresultMatrix = append(resultMatrix, s)", Expect: "non-empty"})
 }
@@ -975,71 +978,249 @@ func ruleKernelBounds(p *core.Program) []core.Obligation {
 }
 
 // ---------------------------------------------------------------------------------------------
-// R-ACCRESET (syntax + types)
+// R-ACCRESET (SSA; the case label is read from the syntax)
 
 func ruleAccReset(p *core.Program) []core.Obligation {
 	const rule = "R-ACCRESET"
 	var obs []core.Obligation
-	pk := p.Pkg("execution/aggregate")
-	if pk == nil {
+	sp := p.SSAPkg("execution/aggregate")
+	if sp == nil {
 		return []core.Obligation{core.Ob(rule, "package aggregate", "-", "", core.Lost, "not found")}
 	}
-	for _, f := range pk.Syntax {
-		// remember the enclosing case label (aggregation name) for the key
-		var caseLabel string
-		ast.Inspect(f, func(n ast.Node) bool {
+	// the aggregation name: the single string label of the enclosing case clause
+	labelAt := func(pos token.Pos) string {
+		_, file := p.FileOf(pos)
+		if file == nil {
+			return ""
+		}
+		path, _ := astutil.PathEnclosingInterval(file, pos, pos)
+		for _, n := range path {
 			if cc, ok := n.(*ast.CaseClause); ok && len(cc.List) == 1 {
 				if bl, ok := cc.List[0].(*ast.BasicLit); ok {
-					caseLabel = strings.Trim(bl.Value, `"`)
+					return strings.Trim(bl.Value, `"`)
 				}
 			}
-			cl, ok := n.(*ast.CompositeLit)
-			if !ok {
-				return true
+		}
+		return ""
+	}
+	// stateWritten: the pieces of state a function value writes: captured variables ("var x") and fields
+	// reached through a captured pointer or a bound receiver ("T.f"). ok=false: unrecognised construction.
+	var methodWrites func(m *ssa.Function, out map[string]bool, depth int)
+	methodWrites = func(m *ssa.Function, out map[string]bool, depth int) {
+		if m == nil || m.Blocks == nil || depth > 2 || len(m.Params) == 0 {
+			return
+		}
+		recv := m.Params[0]
+		core.EachInstr(m, func(_ *ssa.BasicBlock, _ int, ins ssa.Instruction) {
+			switch x := ins.(type) {
+			case *ssa.Store:
+				if fa, ok := x.Addr.(*ssa.FieldAddr); ok && fa.X == recv {
+					if n, f, _, ok := core.FieldRef(fa); ok && n != nil {
+						out[n.Obj().Name()+"."+f] = true
+					}
+				}
+			case *ssa.Call:
+				if c := x.Call.StaticCallee(); c != nil && len(x.Call.Args) > 0 && x.Call.Args[0] == recv && p.InRepo(c) {
+					methodWrites(c, out, depth+1)
+				}
 			}
-			tv, ok := pk.TypesInfo.Types[cl]
-			if !ok || !core.TypeIs(tv.Type, core.Module+"/execution/aggregate", "accumulator") {
-				return true
+		})
+	}
+	closureWrites := func(mc *ssa.MakeClosure, out map[string]bool) bool {
+		fn, ok := mc.Fn.(*ssa.Function)
+		if !ok {
+			return false
+		}
+		if strings.HasSuffix(fn.Name(), "$bound") {
+			// s.reset: the method applied to the bound receiver
+			core.EachInstr(fn, func(_ *ssa.BasicBlock, _ int, ins ssa.Instruction) {
+				if c, ok := ins.(*ssa.Call); ok {
+					methodWrites(c.Call.StaticCallee(), out, 0)
+				}
+			})
+			return true
+		}
+		unknown := false
+		isFree := func(v ssa.Value) *ssa.FreeVar {
+			for d := 0; d < 4; d++ {
+				switch x := v.(type) {
+				case *ssa.FreeVar:
+					return x
+				case *ssa.UnOp:
+					if x.Op != token.MUL {
+						return nil
+					}
+					v = x.X
+				default:
+					return nil
+				}
 			}
-			var add, reset *ast.FuncLit
-			for _, e := range cl.Elts {
-				kv, ok := e.(*ast.KeyValueExpr)
+			return nil
+		}
+		core.EachInstr(fn, func(_ *ssa.BasicBlock, _ int, ins ssa.Instruction) {
+			switch x := ins.(type) {
+			case *ssa.Store:
+				if fv, ok := x.Addr.(*ssa.FreeVar); ok {
+					out["var "+fv.Name()] = true
+					return
+				}
+				if fa, ok := x.Addr.(*ssa.FieldAddr); ok && isFree(fa.X) != nil {
+					if n, f, _, ok := core.FieldRef(fa); ok && n != nil {
+						out[n.Obj().Name()+"."+f] = true
+					}
+				}
+			case *ssa.Call:
+				// a method of the captured state object, called directly or through a captured function value
+				if len(x.Call.Args) == 0 || isFree(x.Call.Args[0]) == nil || x.Call.IsInvoke() {
+					return
+				}
+				if _, isBuiltin := x.Call.Value.(*ssa.Builtin); isBuiltin {
+					return // append(points, v): the assignment of the result is the write
+				}
+				if c := x.Call.StaticCallee(); c != nil {
+					if p.InRepo(c) && c.Signature.Recv() != nil {
+						methodWrites(c, out, 0)
+					}
+					return
+				}
+				cands := resolveDynamic(p, &x.Call)
+				if len(cands) == 0 {
+					unknown = true
+				}
+				for _, c := range cands {
+					methodWrites(c, out, 0)
+				}
+			}
+		})
+		return !unknown
+	}
+	type fnVal struct {
+		v    ssa.Value
+		site *ssa.Call // the call of the helper through whose parameter the value arrived (nil: none)
+	}
+	// resolve a stored function value to closures, following a parameter of a helper to its call sites
+	resolveFn := func(fn *ssa.Function, v ssa.Value) ([]fnVal, bool) {
+		if ct, ok := v.(*ssa.ChangeType); ok {
+			v = ct.X
+		}
+		switch x := v.(type) {
+		case *ssa.MakeClosure, *ssa.Function:
+			return []fnVal{{x, nil}}, true
+		case *ssa.Parameter:
+			var out []fnVal
+			idx := -1
+			for i, prm := range fn.Params {
+				if prm == x {
+					idx = i
+				}
+			}
+			for _, other := range p.Funcs {
+				core.EachInstr(other, func(_ *ssa.BasicBlock, _ int, ins ssa.Instruction) {
+					c, ok := ins.(*ssa.Call)
+					if !ok || c.Call.StaticCallee() != fn || idx < 0 || idx >= len(c.Call.Args) {
+						return
+					}
+					a := c.Call.Args[idx]
+					if ct, ok := a.(*ssa.ChangeType); ok {
+						a = ct.X
+					}
+					out = append(out, fnVal{a, c})
+				})
+			}
+			return out, len(out) > 0
+		}
+		return nil, false
+	}
+	writesOf := func(v ssa.Value) (map[string]bool, bool) {
+		out := map[string]bool{}
+		switch x := v.(type) {
+		case *ssa.MakeClosure:
+			return out, closureWrites(x, out)
+		case *ssa.Function:
+			return out, true // a plain function has no state of its own
+		}
+		return nil, false
+	}
+	for _, fn := range p.Funcs {
+		if fn.Pkg != sp {
+			continue
+		}
+		f := fn
+		core.EachInstr(fn, func(_ *ssa.BasicBlock, _ int, ins ssa.Instruction) {
+			al, ok := ins.(*ssa.Alloc)
+			if !ok || !core.TypeIs(al.Type().Underlying().(*types.Pointer).Elem(), core.Module+"/execution/aggregate", "accumulator") {
+				return
+			}
+			var addV, resetV ssa.Value
+			for _, r := range core.Referrers(al) {
+				fa, ok := r.(*ssa.FieldAddr)
 				if !ok {
 					continue
 				}
-				fl, _ := kv.Value.(*ast.FuncLit)
-				switch kv.Key.(*ast.Ident).Name {
-				case "AddFunc":
-					add = fl
-				case "Reset":
-					reset = fl
+				_, name, _, _ := core.FieldRef(fa)
+				for _, rr := range core.Referrers(fa) {
+					if st, ok := rr.(*ssa.Store); ok && st.Addr == fa {
+						switch name {
+						case "AddFunc":
+							addV = st.Val
+						case "Reset":
+							resetV = st.Val
+						}
+					}
 				}
 			}
-			key := "accumulator " + caseLabel
-			if add == nil || reset == nil {
-				obs = append(obs, core.Ob(rule, key, p.Pos(cl.Pos()), "", core.Undecided, "AddFunc or Reset is not a function literal"))
-				return true
+			if addV == nil && resetV == nil {
+				return // not a literal (a copy, a zero value)
 			}
-			written := assignedOuterVars(pk.TypesInfo, add)
-			resetVars := assignedOuterVars(pk.TypesInfo, reset)
-			var missing []string
-			for v := range written {
-				if !resetVars[v] {
-					missing = append(missing, v.Name())
+			undecided := func(label, why string) {
+				obs = append(obs, core.Ob(rule, "accumulator "+label, p.Pos(al.Pos()), core.FuncName(f), core.Undecided, why))
+			}
+			if addV == nil || resetV == nil {
+				undecided(labelAt(al.Pos()), "AddFunc or Reset is not set in the literal")
+				return
+			}
+			adds, ok1 := resolveFn(f, addV)
+			resets, ok2 := resolveFn(f, resetV)
+			if !ok1 || !ok2 {
+				undecided(labelAt(al.Pos()), "AddFunc or Reset is neither a function literal, a method value nor a parameter of a helper whose call sites pass one")
+				return
+			}
+			// pair the values that arrived through the same call site (or all, when only one side is a parameter)
+			for _, a := range adds {
+				for _, r := range resets {
+					if a.site != nil && r.site != nil && a.site != r.site {
+						continue
+					}
+					pos := al.Pos()
+					if a.site != nil {
+						pos = a.site.Pos()
+					} else if r.site != nil {
+						pos = r.site.Pos()
+					}
+					label := labelAt(pos)
+					written, okA := writesOf(a.v)
+					resetVars, okR := writesOf(r.v)
+					if !okA || !okR {
+						undecided(label, "AddFunc or Reset is a function value of unrecognised construction")
+						continue
+					}
+					var missing, names []string
+					for v := range written {
+						names = append(names, v)
+						if !resetVars[v] {
+							missing = append(missing, v)
+						}
+					}
+					sort.Strings(missing)
+					sort.Strings(names)
+					key := "accumulator " + label
+					if len(missing) > 0 {
+						obs = append(obs, core.Ob(rule, key, p.Pos(pos), core.FuncName(f), core.Violated, fmt.Sprintf("AddFunc writes %v but Reset does not reset it: the table is reused for the same slot of every batch, so state of an earlier step leaks into later ones", missing)))
+					} else {
+						obs = append(obs, core.Ob(rule, key, p.Pos(pos), core.FuncName(f), core.Held, fmt.Sprintf("Reset resets %v", names)))
+					}
 				}
 			}
-			sort.Strings(missing)
-			if len(missing) > 0 {
-				obs = append(obs, core.Ob(rule, key, p.Pos(cl.Pos()), "", core.Violated, fmt.Sprintf("AddFunc writes %v but Reset does not reset it: the table is reused for the same slot of every batch, so state of an earlier step leaks into later ones", missing)))
-			} else {
-				var names []string
-				for v := range written {
-					names = append(names, v.Name())
-				}
-				sort.Strings(names)
-				obs = append(obs, core.Ob(rule, key, p.Pos(cl.Pos()), "", core.Held, fmt.Sprintf("Reset resets %v", names)))
-			}
-			return true
 		})
 	}
 	return obs
@@ -1292,8 +1473,30 @@ func ruleResultShape(p *core.Program) []core.Obligation {
 		var appends []*ssa.Call
 		core.EachInstr(fn, func(b *ssa.BasicBlock, i int, ins ssa.Instruction) {
 			if c, ok := ins.(*ssa.Call); ok {
-				if core.IsStatic(&c.Call, "sort.Sort") {
-					sorts = append(sorts, c)
+				// sorted in the reference's order: sort.Sort on the promql.Matrix itself (its Less is
+				// labels.Compare), or a slice sort of the matrix whose comparison calls labels.Compare
+				name := core.CalleeName(&c.Call)
+				if (name == "sort.Sort" || name == "sort.Stable") && len(c.Call.Args) == 1 {
+					if mi, ok := c.Call.Args[0].(*ssa.MakeInterface); ok && isMatrixT(mi.X.Type()) {
+						sorts = append(sorts, c)
+					}
+				}
+				if (name == "sort.Slice" || name == "sort.SliceStable" || strings.Contains(name, "slices.SortFunc") || strings.Contains(name, "slices.SortStableFunc")) && len(c.Call.Args) == 2 {
+					arg := c.Call.Args[0]
+					if mi, ok := arg.(*ssa.MakeInterface); ok {
+						arg = mi.X
+					}
+					if isMatrixT(arg.Type()) {
+						if mc, ok := c.Call.Args[1].(*ssa.MakeClosure); ok {
+							if cf, ok := mc.Fn.(*ssa.Function); ok {
+								core.EachInstr(cf, func(_ *ssa.BasicBlock, _ int, x ssa.Instruction) {
+									if cc := core.CallCommon(x); cc != nil && core.CalleeName(cc) == pkgLabels+".Compare" {
+										sorts = append(sorts, c)
+									}
+								})
+							}
+						}
+					}
 				}
 				if bi, ok := c.Call.Value.(*ssa.Builtin); ok && bi.Name() == "append" && isMatrixT(c.Type()) {
 					appends = append(appends, c)
@@ -1340,9 +1543,9 @@ func ruleResultShape(p *core.Program) []core.Obligation {
 				}
 			}
 			if dom {
-				obs = append(obs, core.Ob(rule, "range result is sorted", p.Pos(exit.Pos()), core.FuncName(fn), core.Held, "sort.Sort dominates the point where the matrix leaves "+core.FuncName(fn)))
+				obs = append(obs, core.Ob(rule, "range result is sorted", p.Pos(exit.Pos()), core.FuncName(fn), core.Held, "a sort of the matrix in label order (sort.Sort on promql.Matrix, or a slice sort comparing with labels.Compare) dominates the point where the matrix leaves "+core.FuncName(fn)))
 			} else {
-				obs = append(obs, core.Ob(rule, "range result is sorted", p.Pos(exit.Pos()), core.FuncName(fn), core.Violated, "the matrix is returned without sort.Sort: series order depends on shard scheduling"))
+				obs = append(obs, core.Ob(rule, "range result is sorted", p.Pos(exit.Pos()), core.FuncName(fn), core.Violated, "the matrix leaves without having been sorted in label order (sort.Sort on the promql.Matrix, or a slice sort that compares with labels.Compare): series order depends on shard scheduling, or is an order other than the reference's"))
 			}
 		})
 		// 2. series appended to the result matrix are non-empty: dominated by the non-empty branch of len(s.Points)
